@@ -5,10 +5,13 @@
      harness/linkfacts.py; judged by the checker of Model/Linking.v (the function the theorem C20_check_sound is
      about).  `live` is what the installed CPython says about the same reference (symbol table of the compiled
      code object, getattr on the live objects, inspect.signature(...).bind) — the "implementation output".
-   * CDyn: one public function on one generated input: the encoded result of each re-presentation of the input
-     (tag 0 base C-ordered float64, 1 same call repeated, 2 Fortran-ordered, 3 strided view of a larger array,
-     4 int64, 5 default arguments omitted) and whether the arguments (and the function's default-argument
-     objects) were bit-for-bit unchanged by the call.  holds = all results equal /\ nothing mutated.
+   * CDyn: one public function on one generated valid input: the encoded result of each re-presentation / re-execution
+     (tag 0 base: C-ordered float64 — for interference cases the call alone in a forked child; 1 same call repeated with
+     np.empty returning different garbage and the allocator poisoned in between; 2 Fortran-ordered; 3 strided view of a
+     larger array; 4 int64 (integer-valued inputs up to 2^41); 5 negative-stride view; 6 the call after the related functions
+     of the module were called on sibling inputs in the same process; 7 the same array objects refilled in place) and whether
+     the arguments (and the function's default-argument objects) were bit-for-bit unchanged by the call.
+     holds = all results equal /\ nothing mutated /\ no NameError / AttributeError / arity TypeError (encoding 7, 1, ..).
      Purity, determinism and layout independence hold of any Gallina model by construction; this part is TESTED.
    * CImport: `import kneeliverse` succeeded. *)
 From Coq Require Import ZArith List Bool Arith.
